@@ -78,4 +78,27 @@ def hasFull : List QEv → Bool
 def output (enc : Bytes → Bytes) (p : Bytes) (s : QSt) (id : Nat) : Bytes :=
   (List.replicate (s.executed.count id) (enc p)).flatten
 
+/-! ### the staging buffer of a stackless writer (stackless/writer.go)
+
+The wrapped compressor writes into `w.xw` (a pooled byte buffer); `do` then copies it to the destination `dstW` and
+empties it — on BOTH outcomes of the destination write; `Reset(dstW)` empties it as well before re-targeting. -/
+
+structure SWSt where
+  staging : Bytes := []   -- w.xw.bb.B
+  dst : Bytes := []       -- what reached the current destination
+  deriving DecidableEq, Repr
+
+inductive SWOp
+  | run (produced : Bytes) (dstOk : Bool)   -- Write / Flush / Close: the compressor emitted `produced`; the destination write succeeded or failed
+  | reset                                    -- Reset(newDst): a pooled writer is re-acquired for another destination
+  deriving DecidableEq, Repr
+
+def swStep (s : SWSt) : SWOp → SWSt
+  | .run produced dstOk =>
+    let buf := s.staging ++ produced
+    { staging := [], dst := if dstOk then s.dst ++ buf else s.dst }
+  | .reset => { staging := [], dst := [] }
+
+def swRun (ops : List SWOp) : SWSt := ops.foldl swStep {}
+
 end Fh.Model.C22
